@@ -238,8 +238,25 @@ func runC04(args []string) {
 		}
 		tw.emit(ev)
 	}
+	if fl.str("probes", "") != "" {
+		// fixed inputs for defects recorded in known_findings.json (reported as KNOWN-FINDING by probe id)
+		for _, pr := range c04Probes {
+			c := normalize(obj{"src": pr.src, "repeats": 300, "env": pr.env, "strings": pr.strings})
+			ev := c04Event(c)
+			ev["probe"] = pr.id
+			add(c, ev)
+		}
+		writeSummary(fl.str("summary", ""), obj{"events": tw.n})
+		return
+	}
 	if cf := fl.str("cases", ""); cf != "" {
-		readNDJSON(cf, func(_ int, c obj) { add(c, c04Event(c)) })
+		readNDJSON(cf, func(_ int, c obj) {
+			ev := c04Event(c)
+			if pid, ok := c["probe"].(string); ok && pid != "" {
+				ev["probe"] = pid
+			}
+			add(c, ev)
+		})
 	} else {
 		rng := newRand(int64(fl.int("seed", 1)), "c04gen")
 		R := fl.int("repeats", 8)
@@ -251,4 +268,17 @@ func runC04(args []string) {
 		}
 	}
 	writeSummary(fl.str("summary", ""), obj{"events": tw.n, "strings": nstr, "samples": samples})
+}
+
+
+// c04Probes: inputs that exhibit recorded, unrepaired defects (see /verif/known_findings.json).
+var c04Probes = []struct {
+	id, src string
+	env     obj
+	strings []any
+}{
+	// two keys of one Go map (a step env) that expand to the SAME name: which pair survives depends on Go's
+	// map iteration order, so repeated runs on the same input differ
+	{"F17-colliding-go-map-keys", `{"steps":[{"command":"c","env":{"$A":"from-dollar-A","a":"from-a"}}]}`, obj{"A": "a"},
+		[]any{[]any{"$A", []any{tokRef("A", "plain")}}}},
 }
